@@ -63,6 +63,10 @@ def run(ctx):
         mapping = {s: names[k] for k, s in enumerate(ids)}
         base.append(wf)
         variants.append({'perm': permute(wf, rng), 'ren': rename_wf(wf, mapping), 'mapping': mapping})
+    for wf in pc.overlapping_reference_shapes():
+        mapping = {'a': 'zeta', 'b': 'alpha'}
+        base.append(wf)
+        variants.append({'perm': permute(wf, rng), 'ren': rename_wf(wf, mapping), 'mapping': mapping})
     allwfs = base + [v['ren'] for v in variants]
     ok, oracle, st, out, conf = pc.prepare_oracle(ctx, allwfs)
     if not ok:
